@@ -120,3 +120,14 @@ def _with_o3(spec):
 
 for _n in _O3:
     _with_o3(PROPS['C%02d' % _n])
+
+# link-time optimisation with strict aliasing on both sides (seeded changes C17-K, C19-K): harness/h_lto_codec.c hands the byte-oriented routines objects it has
+# just written through typed lvalues; library routines are inlined into those callers
+for _n in (17, 18, 19):
+    _s = PROPS['C%02d' % _n]
+    _b = _s['configs'] if 'configs' in _s else (lambda tier: [dict(name='default')])
+    _s['configs'] = (lambda b, n: lambda tier: b(tier) + [dict(name='lto', harness=['h_lto_codec.c'], hflags=['-DVF_LTO=%d' % n], flavour='lto',
+                                                               libdrop=['-fno-strict-aliasing'], hdrop=['-fno-strict-aliasing'], nworkers=2)])(_b, _n)
+    _s['parallel_configs'] = _s.get('parallel_configs', 1) + 1
+    _s['technique'] = _s.get('technique', '') + '; the byte-oriented routines inlined (LTO, -O3, strict aliasing) into callers that wrote the data through typed lvalues'
+    _s['require'] = list(_s.get('require', [])) + [{17: 'lto-crc-hash-on-typed-objects', 18: 'lto-utf-on-typed-objects', 19: 'lto-accessors-on-typed-objects'}[_n]]
